@@ -291,10 +291,34 @@ package reflect
 
 // bytes a fixed-size value occupies in memory (enum: int64)
 //@ spec func storeSize(t Int) Int = (t == tBOOL || t == tBYTE) ? 1 : (t == tI16 ? 2 : (t == tI32 ? 4 : 8))
+// Round trip of the scalar wire forms (C01): if the bytes at a are the ones W_uN appended, the
+// big-endian reader returns the value written. "sameK(s2, n, m, a)": bytes n..n+K-1 of s2
+// are memory m at a..a+K-1.
+//@ spec func same2(s BSeq, n Int, m Mem, a Int) bool = m[a] == at(s, n) && m[a + 1] == at(s, n + 1)
+//@ spec func same4(s BSeq, n Int, m Mem, a Int) bool = m[a] == at(s, n) && m[a + 1] == at(s, n + 1) && m[a + 2] == at(s, n + 2) && m[a + 3] == at(s, n + 3)
+//@ spec func same8(s BSeq, n Int, m Mem, a Int) bool = m[a] == at(s, n) && m[a + 1] == at(s, n + 1) && m[a + 2] == at(s, n + 2) && m[a + 3] == at(s, n + 3) && m[a + 4] == at(s, n + 4) && m[a + 5] == at(s, n + 5) && m[a + 6] == at(s, n + 6) && m[a + 7] == at(s, n + 7)
+//@ lemma RT_u16: forall s BSeq, v Int, m Mem, a Int :: {W_u16(s, v), m[a]} 0 <= v && v < 65536 && same2(W_u16(s, v), slen(s), m, a) ==> R_u16(m, a) == v
+//@ lemma RT_u32: forall s BSeq, v Int, m Mem, a Int :: {W_u32(s, v), m[a]} 0 <= v && v < 4294967296 && same4(W_u32(s, v), slen(s), m, a) ==> R_u32(m, a) == v
+//@ lemma digits64: forall v Int :: {v / 72057594037927936} 0 <= v && v < 18446744073709551616 ==> v == ((v / 72057594037927936) % 256) * 72057594037927936 + ((v / 281474976710656) % 256) * 281474976710656 + ((v / 1099511627776) % 256) * 1099511627776 + ((v / 4294967296) % 256) * 4294967296 + ((v / 16777216) % 256) * 16777216 + ((v / 65536) % 256) * 65536 + ((v / 256) % 256) * 256 + v % 256
+//@   opt always
+//@ lemma RT_u64: forall s BSeq, v Int, m Mem, a Int :: {W_u64(s, v), m[a]} 0 <= v && v < 18446744073709551616 && same8(W_u64(s, v), slen(s), m, a) ==> R_u64(m, a) == v
+// an enum travels as the low 32 bits of its int64 and comes back sign-extended: exact for values within 32 bits
+//@ lemma RT_enum: forall x Int :: {sgn32(u32(x))} -2147483648 <= x && x < 2147483648 ==> sgn32(u32(x)) == x
+
+// decodeFixedSizeTypes stores, for the kind it is given, exactly the big-endian value of the input
+// (sign-extended from 32 bits for enums); every call site passes the kind of the descriptor whose
+// slot is being filled (ghost td, c01_kind).
 //@ func decodeFixedSizeTypes(t ttype, b []byte, p unsafe.Pointer) (n int)
+//@   ghost td *tType
+//@   requires c01_kind: td != nil && t == td.T
 //@   requires p != nil && typeToSize[t] > 0 && len(b) >= typeToSize[t]
 //@   modifies M[p : p + storeSize(t)]
 //@   ensures n == typeToSize[t]
+//@   ensures c01_value: ((t == tBOOL || t == tBYTE) ==> M[p] == old(M[b.ptr]))
+//@        && (t == tI16 ==> ld16(p) == old(R_u16(M, b.ptr)))
+//@        && (t == tI32 ==> ld32(p) == old(R_u32(M, b.ptr)))
+//@        && ((t == tI64 || t == tDOUBLE) ==> ld64(p) == old(R_u64(M, b.ptr)))
+//@        && (t == tENUM ==> sgn64(ld64(p)) == old(sgn32(R_u32(M, b.ptr))))
 
 // isBin(t): the Go slot is a []byte (24-byte header), directly or behind an optional pointer
 //@ spec func isBin(t *tType) bool = t.Tag == defs.T_binary || (t.IsPointer && t.V.Tag == defs.T_binary)
@@ -352,6 +376,7 @@ package reflect
 //@   requires d != nil && spanInv(&d.s) && wfSD(sd) && base != nil && 0 <= maxdepth && len(b) <= MAXIN
 //@   requires c15_budget: maxdepth >= maxDepthLimit + 2 - 2*lvl
 //@   decreases maxdepth
+//@   call decodeFixedSizeTypes ghost td = t
 //@   call decodeType ghost lvl = lvl + 1
 //@   call decodeType ghost wt = tp
 //@   call decodeStringNoCopy ghost wt = tp
@@ -420,11 +445,16 @@ package reflect
 //@        && ld64(p+8) == old(strLen(M, b.ptr)) && (isBin(t) ==> ld64(p+16) == old(strLen(M, b.ptr)))
 //@        && (old($brk) <= ld64(p) || (d.s.b <= ld64(p) && ld64(p) + old(strLen(M, b.ptr)) <= d.s.b + d.s.p))
 //@   ensures c10_override: err == nil && t.T == tSTRING && maxdepth != 0 ==> ld64(p+8) == old(strLen(M, b.ptr))
+//@   ensures c01_bytes: err == nil && t.T == tSTRING && maxdepth != 0 && (b.ptr + len(b) <= p || p + slotSize(t) <= b.ptr) ==> forall k Int :: {M[ld64(p) + k]} 0 <= k && k < old(strLen(M, b.ptr)) ==> M[ld64(p) + k] == old(M[b.ptr + 4 + k])
 //@   requires t.FixedSize > 0 ==> len(b) >= t.FixedSize
 //@   requires c15_budget: maxdepth >= maxDepthLimit + 3 - 2*lvl
 //@   decreases maxdepth
 //@   call decodeType ghost lvl = lvl + 1
 //@   call decodeType ghost nc = false
+//@   call decodeFixedSizeTypes#0 ghost td = t
+//@   call decodeFixedSizeTypes#1 ghost td = kt
+//@   call decodeFixedSizeTypes#2 ghost td = vt
+//@   call decodeFixedSizeTypes#3 ghost td = et
 //@   call decodeType#0 ghost wt = t0
 //@   call decodeType#1 ghost wt = t1
 //@   call decodeType#2 ghost wt = tp
